@@ -106,6 +106,7 @@ PROPS["C15"] = {
         J("rng-raw-reference", "rngdet", "rel", 0, 40, 2000),
         J("rng-pollution", "rngdet", "rel", 1, 2000, 600000, chunk=2500),
         J("rng-threads-tsan", "rngdet", "tsan", 2, 150, 5000, timeout=120),
+        J("rng-2^32-seedings", "rngdet", "rel", 3, 3, 6, timeout=2400, chunk=1),
     ],
     "rule": ("(i) raw 64-bit stream of 50 seeds per case (corner seeds 0,1,2^63,2^64-1,DUMMY + random) x 256 outputs against an independent "
              "splitmix64->sfc64(+20 discards) reference; (ii) pollution differential: a random call program S (40-200 calls over all 36 "
@@ -345,6 +346,10 @@ _sf("C14", "recording", ["mixed"],
 
 _add_job("C12", J("exp-queues-in-concurrent-trials", "expcheck", "rel", 2, 24, 3000, timeout=300, chunk=2, claim="C12/concurrent-trials/"))
 _add_job("C12", J("exp-queues-in-concurrent-trials-tsan", "expcheck", "tsan", 2, 4, 100, timeout=600, chunk=1, claim="C12/concurrent-trials/"))
+_add_job("C01", J("exp-event-queues-in-concurrent-trials", "expcheck", "rel", 4, 24, 2000, timeout=300, chunk=2, claim="C01/concurrent-trials/"))
+_add_job("C01", J("exp-event-queues-in-concurrent-trials-tsan", "expcheck", "tsan", 4, 4, 100, timeout=600, chunk=1, claim="C01/concurrent-trials/"))
+_add_job("C16", J("exp-samplers-in-concurrent-trials", "expcheck", "rel", 5, 24, 1500, timeout=300, chunk=2, claim="C16/concurrent-trials/"))
+_add_job("C16", J("exp-samplers-in-concurrent-trials-tsan", "expcheck", "tsan", 5, 3, 60, timeout=600, chunk=1, claim="C16/concurrent-trials/"))
 _add_job("C20", J("exp-static-pools-in-concurrent-trials", "expcheck", "rel", 0, 16, 2000, timeout=300, chunk=2, claim="C20/concurrent-trials/"))
 _add_job("C20", J("exp-static-pools-in-concurrent-trials-tsan", "expcheck", "tsan", 1, 4, 100, timeout=600, chunk=1, claim="C20/concurrent-trials/"))
 _add_job("C17", J("exp-weighted-statistics-in-concurrent-trials", "expcheck", "rel", 3, 24, 3000, timeout=300, chunk=2, claim="C17/concurrent-trials/"))
